@@ -1443,6 +1443,17 @@ package mcp
 //@   ensures @requested-version-wins-when-offered result.1 == nil && at(answered, has(offered, wanted)) ==> result.0.ProtocolVersion == wanted
 //@   ensures @otherwise-an-sdk-version result.1 == nil && !at(answered, has(offered, wanted)) ==> sdkSupports(result.0.ProtocolVersion)
 
+// readBatch (C19: decoding never panics on arbitrary bytes): whatever the payload - empty, blank, truncated, not JSON
+// at all - the function returns (messages or an error); a batch has exactly one decoded message per element, in
+// order, and a decoding error of any element fails the whole batch.
+//@ func readBatch [C19]
+//@   nopanic
+//@   track DecodeMessage as dec
+//@   modifies *
+//@   ensures @an-element-that-does-not-decode-fails-the-batch calls(dec) >= 1 && lastResult(dec, 1) != nil ==> result.2 != nil
+//@   ensures @a-batch-is-never-empty result.1 && result.2 == nil ==> len(result.0) >= 1
+//@   ensures @a-single-message-is-not-a-batch !result.1 ==> len(result.0) == 1 && calls(dec) == 1 && result.2 == lastResult(dec, 1)
+//@   loop 1: invariant @one-message-per-element len(local(msgs)) == $idx && calls(dec) == $idx && (calls(dec) >= 1 ==> lastResult(dec, 1) == nil)
 // C19 (required members are present and non-null): the list arrays the server and client put into results are never
 // nil, even when there is nothing to list - one item per listed feature, in order.
 //@ func (*Server).listPrompts$1 [C19]
